@@ -104,7 +104,7 @@ func runWitness(repo string, w witness) (r witnessResult) {
 		spec.thorough(c)
 	}
 	for _, o := range c.Obs {
-		if o.Verdict == VIOLATION && strings.Contains(o.Rule, w.Expect) {
+		if o.Verdict == VIOLATION && matchesAny(o.Rule, w.Expect) {
 			r.Status, r.Detail = "detected", o.Rule+" "+o.Key+": "+oneLine(o.Detail)
 			return
 		}
@@ -141,4 +141,14 @@ func runSelftest(repo, verif, prop string) int {
 	}
 	fmt.Printf("witnesses=%d detected=%d missed=%d skipped=%d not-compiling=%d\n", len(ws), counts["detected"], counts["missed"], counts["skipped"], counts["not-compiling"])
 	return rc
+}
+
+// matchesAny: expect is a `|`-separated list of substrings of rule ids.
+func matchesAny(rule, expect string) bool {
+	for _, e := range strings.Split(expect, "|") {
+		if strings.Contains(rule, e) {
+			return true
+		}
+	}
+	return false
 }
